@@ -214,6 +214,98 @@ static void c10_pair_child(const void *job, size_t n) {
 	if (single) hx_emit_trace();
 	res_finish();
 }
+
+/* ---------------------------------------------------------------- H6: concurrent high-level commands are linearizable
+ * Two application threads each issue one high-level command (12 commands on the same train / DCC accessories: functions of
+ * the same and of different function groups, speeds, emergency stop, calibrated speed, other track output, point aspects,
+ * signal, a second train).  After both returned and everything was flushed the observation = (whole tracked state through
+ * bidib_get_state) + (state of a decoder model that folds the drive / accessory messages in WIRE order) must equal the
+ * observation of one of the two sequential executions a;b or b;a (reference runs of the same harness).  A lost update (both
+ * calls returned 0, one effect missing) or tracked state and decoders disagreeing after the calls is a violation. */
+#include "../fw/statedump.h"
+typedef struct { const char *name; } lin_cmd_t;
+static const char *LINNAME[] = {"set_train_peripheral(train1,head_light,0,master)", "set_train_peripheral(train1,cabin_light,1,master)", "set_train_peripheral(train1,horn,1,master)",
+	"set_train_speed(train1,20,master)", "set_train_speed(train1,-30,master)", "emergency_stop_train(train1,master)", "switch_point(pointd,reverse)", "switch_point(pointd,normal)",
+	"set_signal(signald,go)", "set_train_peripheral(train1,cabin_light,1,booster2)", "set_calibrated_train_speed(train1,3,master)", "set_train_peripheral(train2,light,1,master)"};
+#define N_LIN 12
+static int lin_rc[2];
+static int lin_call(int c) {
+	switch (c) {
+	case 0: return bidib_set_train_peripheral("train1", "head_light", 0, "master"); case 1: return bidib_set_train_peripheral("train1", "cabin_light", 1, "master");
+	case 2: return bidib_set_train_peripheral("train1", "horn", 1, "master"); case 3: return bidib_set_train_speed("train1", 20, "master"); case 4: return bidib_set_train_speed("train1", -30, "master");
+	case 5: return bidib_emergency_stop_train("train1", "master"); case 6: return bidib_switch_point("pointd", "reverse"); case 7: return bidib_switch_point("pointd", "normal");
+	case 8: return bidib_set_signal("signald", "go"); case 9: return bidib_set_train_peripheral("train1", "cabin_light", 1, "booster2"); case 10: return bidib_set_calibrated_train_speed("train1", 3, "master");
+	default: return bidib_set_train_peripheral("train2", "light", 1, "master");
+	}
+}
+static int lin_a, lin_b;
+static void *lin_t(void *arg) { int w = (int) (intptr_t) arg; lin_rc[w] = lin_call(w ? lin_b : lin_a); return NULL; }
+/* decoder model: per (track output, DCC address) speed byte and function bytes; per accessory address the last aspect */
+static size_t lin_fold_wire(int from, char *buf, size_t n) {
+	struct { uint8_t out[4], al, ah, speed, f[4]; int used; } D[8]; int nd = 0; struct { uint8_t al, ah, asp; } A[8]; int na = 0; memset(D, 0, sizeof D);
+	for (int i = from; i < SB.nlog; i++) {
+		if (SB.log[i].type == MSG_CS_DRIVE && SB.log[i].dlen == 9) { const uint8_t *d = SB.log[i].data; int k;
+			for (k = 0; k < nd; k++) if (!memcmp(D[k].out, SB.log[i].addr, 4) && D[k].al == d[0] && D[k].ah == d[1]) break;
+			if (k == nd && nd < 8) { memcpy(D[k].out, SB.log[i].addr, 4); D[k].al = d[0]; D[k].ah = d[1]; nd++; }
+			if (k < 8) { if (d[3] & 1) D[k].speed = d[4]; if (d[3] & 2) D[k].f[0] = (uint8_t) ((D[k].f[0] & 0xE0) | (d[5] & 0x1F)); if (d[3] & 4) D[k].f[1] = (uint8_t) ((D[k].f[1] & 0xF0) | (d[6] & 0x0F));
+				if (d[3] & 8) D[k].f[1] = (uint8_t) ((D[k].f[1] & 0x0F) | (d[6] & 0xF0)); if (d[3] & 16) D[k].f[2] = d[7]; if (d[3] & 32) D[k].f[3] = d[8]; } }
+		if (SB.log[i].type == MSG_CS_ACCESSORY && SB.log[i].dlen >= 3) { const uint8_t *d = SB.log[i].data; int k; for (k = 0; k < na; k++) if (A[k].al == d[0] && A[k].ah == d[1]) break;
+			if (k == na && na < 8) { A[k].al = d[0]; A[k].ah = d[1]; na++; } if (k < 8) A[k].asp = d[2]; }
+	}
+	size_t o = 0;
+	for (int a = 0; a < 8; a++) for (int k = 0; k < nd; k++) { int rank = 0; for (int j = 0; j < nd; j++) if (memcmp(&D[j], &D[k], 6) < 0) rank++; if (rank != a) continue;      /* canonical order */
+		o += (size_t) snprintf(buf + o, n - o, "DEC out=%02x.%02x addr=%02x%02x speed=%02x f=%02x%02x%02x%02x;", D[k].out[0], D[k].out[1], D[k].ah, D[k].al, D[k].speed, D[k].f[0], D[k].f[1], D[k].f[2], D[k].f[3]); }
+	for (int a = 0; a < 8; a++) for (int k = 0; k < na; k++) { int rank = 0; for (int j = 0; j < na; j++) if (memcmp(&A[j], &A[k], 2) < 0) rank++; if (rank != a) continue;
+		o += (size_t) snprintf(buf + o, n - o, "ACC %02x%02x aspect=%02x;", A[k].ah, A[k].al, A[k].asp); }
+	return o;
+}
+static int lin_quiet; static int lin_hook(int node, const rc_msg_t *m) { (void) node; (void) m; return lin_quiet; }
+static void c10_lin_child(const void *job, size_t n) {
+	vs_dev_t devs[VS_MAXDEV]; int nd; size_t pl; const uint8_t *p = job_parse(job, n, devs, &nd, &pl);
+	lin_a = p[0]; lin_b = p[1]; int mode = p[2]; const char *expected = (const char *) (p + 3); size_t explen = pl - 3;   /* mode 0 concurrent, 1 a;b, 2 b;a */
+	hx_child_begin(devs, nd, 1, NULL, 0, 0);
+	cm_std(&M); lin_quiet = 0; cm_install(&M); SB.on_msg = lin_hook;
+	if (hx_start_normal(0)) res_infra("normal start failed");
+	hx_quiesce(); vs_sleep_us(2500000); hx_quiesce();
+	uint8_t *m; while ((m = bidib_read_message())) free(m); while ((m = bidib_read_error_message())) free(m);
+	lin_quiet = 1;                       /* the bus does not answer the commands: only the optimistic updates are visible */
+	int from = SB.nlog;
+	if (mode == 0) { vs_window(1); int t1 = vs_spawn(lin_t, (void *) (intptr_t) 0), t2 = vs_spawn(lin_t, (void *) (intptr_t) 1); vs_join_tid(t1); vs_join_tid(t2); vs_window(0); }
+	else if (mode == 1) { lin_rc[0] = lin_call(lin_a); lin_rc[1] = lin_call(lin_b); } else { lin_rc[1] = lin_call(lin_b); lin_rc[0] = lin_call(lin_a); }
+	bidib_flush(); hx_quiesce();
+	static char obs[1 << 15]; size_t o = (size_t) snprintf(obs, sizeof obs, "rc=%d,%d;", lin_rc[0], lin_rc[1]); o += sd_dump(obs + o, sizeof obs - o); o += lin_fold_wire(from, obs + o, sizeof obs - o);
+	hx_hash_t h; hx_hash_init(&h); hx_hash_add(&h, obs, o);
+	if (mode) res_printf("R %llx %llx\n", (unsigned long long) h.a, (unsigned long long) h.b);
+	else if (explen >= 32) {
+		uint64_t e[4]; memcpy(e, expected, 32);
+		if (!((h.a == e[0] && h.b == e[1]) || (h.a == e[2] && h.b == e[3]))) {
+			char cls[300]; snprintf(cls, sizeof cls, "not-linearizable %s || %s: the final tracked state / decoder state equals neither sequential order", LINNAME[lin_a], LINNAME[lin_b]);
+			res_violation(cls, "observation after the concurrent execution: %.1500s", obs);
+		}
+	}
+	if (getenv("VERIF_IN_REPLAY")) res_printf("X %s\n", obs);
+	hx_emit_ledger_violations("C10");
+	res_printf("O %llx %llx\n", (unsigned long long) h.a, (unsigned long long) h.b);
+	hx_emit_trace(); res_finish();
+}
+static void run_lin(int thorough, long *execs, long *states, long *transitions, int *exhaustive) {
+	long sched = 0, npairs = 0, commuting = 0; int minb = 9;
+	for (int a = 0; a < N_LIN; a++) for (int b = a; b < N_LIN; b++) {
+		if (rep_elapsed() > rep_deadline_s) { *exhaustive = 0; break; }
+		uint64_t e[4] = {0, 0, 0, 0};
+		for (int mode = 1; mode <= 2; mode++) { uint8_t rp[3] = {(uint8_t) a, (uint8_t) b, (uint8_t) mode}; uint8_t job[64]; size_t jn = job_build(job, NULL, 0, rp, 3);
+			run_submit(harness_find("c10.lin"), job, jn, NULL); run_res_t r; run_wait(&r); rep_collect(&r, "c10.lin", job, jn, "sequential reference run");
+			const char *l = res_line(&r, 'R', 0); unsigned long long x = 0, y = 0; if (!l || sscanf(l, "%llx %llx", &x, &y) != 2) rep_infra("c10.lin: no reference observation for pair %d,%d", a, b);
+			e[2 * (mode - 1)] = x; e[2 * (mode - 1) + 1] = y; (*execs)++; }
+		if (e[0] == e[2] && e[1] == e[3]) commuting++;
+		uint8_t param[3 + 32] = {(uint8_t) a, (uint8_t) b, 0}; memcpy(param + 3, e, 32);
+		char label[300]; snprintf(label, sizeof label, "H6 %s || %s", LINNAME[a], LINNAME[b]);
+		e1_spec_t s = { .harness = "c10.lin", .param = param, .nparam = sizeof param, .bound = thorough ? 3 : 2, .label = strdup(label) };
+		e1_explore(&s); for (int k = 0; k < 8; k++) sched += s.schedules_by_cost[k]; npairs++; *states += s.distinct_outcomes; *transitions += s.choice_points; if (!s.exhaustive) *exhaustive = 0; if (s.completed_bound < minb) minb = s.completed_bound;
+	}
+	*execs += sched;
+	rep_note("H6 linearizability of concurrent high-level commands: %ld pairs of %d commands (%ld pairs commute), %ld schedules, completed preemption bound %d", npairs, N_LIN, commuting, sched, minb);
+}
 static char refbuf[5][8192]; static size_t reflen[5];
 typedef struct { int32_t from, count; uint8_t rx_mode, single; } pjob_t;
 static pjob_t *pjobs; static long npjobs, cappjobs, pround_base;
@@ -231,7 +323,7 @@ static void pair_on_result(long idx, const run_res_t *r) {
 	if (l) fail = atol(l); else if (r->status != 0) fail = res_last_progress(r);
 	if (fail >= 0 && npresume < 4096) { presume[npresume][0] = pround_base + idx; presume[npresume][1] = fail; npresume++; }
 }
-void c10_register(void) { harness_register("c10.h", c10_child); harness_register("c10.pair", c10_pair_child); }
+void c10_register(void) { harness_register("c10.h", c10_child); harness_register("c10.pair", c10_pair_child); harness_register("c10.lin", c10_lin_child); }
 static int excluded_entry(int e) { return !strcmp(entry_name(e), "bidib_send_sys_reset"); }
 static void run_pairs(int thorough, int tsan, long *execs, long *states, long *transitions, int *exhaustive) {
 	int NE = N_HL + N_LL; npjobs = 0; pround_base = 0; long planned = 0;
@@ -298,6 +390,7 @@ int c10_run(const char *tier) {
 		         s.schedules_by_cost[0], s.schedules_by_cost[1], s.schedules_by_cost[2], s.schedules_by_cost[3], s.distinct_outcomes, s.contended_execs, reflen[hn]);
 	}
 	run_pairs(thorough, tsan, &execs, &states, &transitions, &exhaustive);
+	if (!tsan) run_lin(thorough, &execs, &states, &transitions, &exhaustive);
 	rep_count("executions", execs); rep_count("states", states); rep_count("transitions", transitions); rep_flag("exhaustive", exhaustive);
 	return 0;
 }
